@@ -15,11 +15,37 @@ fn main() {
         let Some(path) = args.get(1) else { usage() };
         std::process::exit(rt::props::replay_file(std::path::Path::new(path)));
     }
+    if args[0] == "--replay-case" {
+        // rt --replay-case <PROPERTY> <sub> <case json>: one saved case of a sub-check hosted here for another engine
+        let (Some(prop), Some(sub), Some(json)) = (args.get(1), args.get(2), args.get(3)) else { usage() };
+        let case: serde_json::Value = match serde_json::from_str(json) {
+            Ok(v) => v,
+            Err(e) => {
+                println!("HARNESS: bad case json: {e}");
+                std::process::exit(EXIT_INCONCLUSIVE)
+            }
+        };
+        match vcore::panics::catch(|| rt::props::replay_case(prop, sub, case)) {
+            Ok(Ok(())) => std::process::exit(0),
+            Ok(Err(reason)) if reason.starts_with("HARNESS") => {
+                println!("{reason}");
+                std::process::exit(EXIT_INCONCLUSIVE)
+            }
+            Ok(Err(reason)) => {
+                println!("{reason}");
+                std::process::exit(1)
+            }
+            Err(p) => {
+                println!("HARNESS: panic {p}");
+                std::process::exit(EXIT_INCONCLUSIVE)
+            }
+        }
+    }
     if args[0] == "--sub-json" {
         let prop = args.get(1).cloned().unwrap_or_default();
         let tier = if args.get(2).map(|s| s == "thorough").unwrap_or(false) { Tier::Thorough } else { Tier::Quick };
         // variant runs use a fraction of the std budget: same generators, fewer cases
-        let ctx = Ctx::new(&prop, if std::env::var_os("VERIF_VARIANT_FULL").is_some() { tier } else { Tier::Quick });
+        let ctx = Ctx::new(&prop, if std::env::var_os("VERIF_VARIANT_FULL").is_some() || prop == "C19" { tier } else { Tier::Quick });
         let _ = tier;
         rt::props::print_sub_reports(&ctx);
         return;
